@@ -153,6 +153,24 @@ def run(plan):
             dev.script = [{"drop": True}, {"mutate": plan["mutate"]}]
             ntx = 2
             w.fire("altered_reply_to_a_retransmission")
+        if plan.get("authentic_after"):
+            # the altered packet and an intact repetition reach the client in the same instant
+            dev.script[-1] = dict(dev.script[-1], authentic_after=True, gap=0)
+        if plan.get("abandoned"):
+            # history: an authentic packet of the same length was received but never read - the unit closed the
+            # connection first - and is thrown away when the client reconnects
+            dev.script = [{"dup": 1, "gap": 0.05}] + dev.script
+            try:
+                await lan.send(b"\xaa\x00", retries=1)
+            except Exception as e:
+                res.fail(f"clean exchange raised {type(e).__name__}", repr(e))
+                return
+            await asyncio.sleep(0.2)
+            for conn in w.net.conns:
+                if conn.open:
+                    conn.close()
+            await asyncio.sleep(0.05)
+            w.fire("authentic_packet_abandoned_unread")
         PE = w.ns.lan.ProtocolError
         try:
             got = await lan.send(b"\xaa\x01", retries=ntx)
@@ -165,7 +183,10 @@ def run(plan):
         conn = w.net.conns[0]
         import refmodel.codec as codec
         orig = codec.v2_encode(dev.device_id, reply, magic=dev.resp_magic)
-        delivered = bytes(conn.tx_stream)[len(orig) if plan.get("warm") else 0:]
+        conn = w.net.conns[-1]
+        delivered = bytes(conn.tx_stream)[len(orig) if (plan.get("warm") and not plan.get("abandoned")) else 0:]
+        if plan.get("authentic_after") and delivered.endswith(orig) and len(delivered) > len(orig):
+            delivered = delivered[:-len(orig)]
         delivered_changed[0] = delivered != orig
         if kind == "other":
             res.fail(f"corrupted packet raised {type(got).__name__} instead of ProtocolError", repr(got))
@@ -198,7 +219,7 @@ def run(plan):
         res.fail(f"liveness: {type(e).__name__}", str(e))
     res.take(w)
     res.add_fired(dev.fired)
-    res.key = (plan["reply"], repr(plan["mutate"]), bool(plan.get("warm")), bool(plan.get("as_extra")), bool(plan.get("pair")), bool(plan.get("after_drop")), plan["config"].get("version"), bool(plan.get("straddle")))
+    res.key = (plan["reply"], repr(plan["mutate"]), bool(plan.get("warm")), bool(plan.get("as_extra")), bool(plan.get("pair")), bool(plan.get("after_drop")), plan["config"].get("version"), bool(plan.get("straddle")), bool(plan.get("authentic_after")), bool(plan.get("abandoned")))
     res.nontrivial = delivered_changed[0]
     return res
 
@@ -248,7 +269,8 @@ def space(tier):
         v = BOUNDARY[j % len(BOUNDARY)]
         k = j // (len(BOUNDARY) * len(pos_index))
         return {"config": base, "reply": frame_for(L).hex(), "mutate": {"kind": "byte", "pos": p, "val": v},
-                "as_extra": k % 2 == 1, "warm": k % 4 == 2, "pair": k % 4 == 3, "after_drop": k % 4 == 0 and v in (0x00, 0xFF)}
+                "as_extra": k % 2 == 1, "warm": k % 4 == 2, "pair": k % 4 == 3, "after_drop": k % 4 == 0 and v in (0x00, 0xFF),
+                "authentic_after": k % 4 == 0 and v in (0x01, 0x5A), "abandoned": k % 4 == 0 and v in (0xAA, 0x80)}
     sp.add("byte_subst_boundary_values", len(pos_index) * len(BOUNDARY) * 4, subst_boundary, exhaustive=True)
 
     base3 = {"version": 3, "device_id": 0x0000112233445566}
@@ -287,6 +309,6 @@ def space(tier):
             m = {"kind": "multi", "edits": [[rng.randrange(n), rng.randrange(1, 256)]]}
         return {"config": dict(base, device_id=rng.getrandbits(64)), "reply": rand_bytes(rng, L).hex(), "mutate": m,
                 "warm": rng.random() < 0.5, "as_extra": rng.random() < 0.25, "pair": rng.random() < 0.5,
-                "after_drop": rng.random() < 0.25}
+                "after_drop": rng.random() < 0.25, "authentic_after": rng.random() < 0.2, "abandoned": rng.random() < 0.2}
     sp.add("random_packets", 3000 if tier == "quick" else 400_000, rnd)
     return sp
